@@ -29,8 +29,11 @@ let () =
   let s = read_all stdin in
   let n = String.length s in
   let rec build i acc = if i < 0 then acc else build (i - 1) (ztab.(Char.code s.[i]) :: acc) in
-  let input = build (n - 1) [] in
-  let out = run_script input in
+  (* a script that starts with the line "#mem" goes to the capacity-arithmetic model (MemModel.v) *)
+  let is_mem = n >= 5 && String.sub s 0 5 = "#mem\n" in
+  let input = if is_mem then (let rec b i acc = if i < 5 then acc else b (i - 1) (ztab.(Char.code s.[i]) :: acc) in b (n - 1) [])
+              else build (n - 1) [] in
+  let out = if is_mem then run_mem_script input else run_script input in
   let b = Buffer.create 65536 in
   List.iter (fun x -> Buffer.add_char b (Char.chr ((int_of_z x) land 255))) out;
   print_string (Buffer.contents b)
